@@ -385,8 +385,37 @@ def generate(scratch, gen, universe, outdir, registry=None, extra_files=None, re
     return target
 
 
+class BindingsBroken(Exception):
+    """The bindings generated at check time for a schema universe do not compile (or the generator
+    fails): the property cannot hold for the types concerned; reported as a violation."""
+    def __init__(self, gen, universe, text):
+        Exception.__init__(self, text)
+        self.gen, self.universe, self.text = gen, universe, text
+
+
 def build_with_bindings(scratch, gen, harness, universe, overlay=None, resources=False, race=False):
     mod = make_module(scratch, gen, harness, name="%s-%s-%s" % (harness, universe, gen))
-    generate(scratch, gen, universe, mod, registry=os.path.join(mod, "zz_registry.go"),
-             resources=os.path.join(mod, "zz_resources.go") if resources else None)
-    return go_build(mod, os.path.join(mod, "h"), overlay=overlay, race=race)
+    try:
+        generate(scratch, gen, universe, mod, registry=os.path.join(mod, "zz_registry.go"),
+                 resources=os.path.join(mod, "zz_resources.go") if resources else None)
+    except Internal as e:
+        if "generator failed on universe" in str(e):
+            raise BindingsBroken(gen, universe, str(e)[-1500:])
+        raise
+    try:
+        return go_build(mod, os.path.join(mod, "h"), overlay=overlay, race=race)
+    except Internal as e:
+        lines = [l for l in str(e).split("\n") if re.match(r"^(\./)?gen/[^:]+\.go:\d+", l.strip())]
+        if lines:
+            raise BindingsBroken(gen, universe, "\n".join(lines[:10]))
+        raise
+
+
+def bindings_broken(prop, tier, e, t0):
+    sig_msg = re.sub(r":\d+:\d+", "", e.text.strip().split("\n")[0])[:160]
+    merged = {"sub": {}, "failures": [{"sig": "%s bindings-unusable universe=%s :: %s" % (e.gen, e.universe, sig_msg),
+                                       "detail": "the bindings generated for universe %s by the %s generator cannot be built, so the property fails for its types:\n%s" % (e.universe, e.gen, e.text),
+                                       "replay": {"gen": e.gen, "universe": e.universe}}],
+              "fail_count": 1, "samples": [], "exhaustive": False, "capped": ["bindings did not build: nothing explored"], "skipped": {}, "notes": [], "extra": {}}
+    return finish(prop, tier, "model_checking", merged, t0, rule="bindings generated at check time did not build; nothing was explored",
+                  assumptions=[], trusted_base=[])
